@@ -42,6 +42,8 @@ structure Cfg where
   /-- root unit of a stops-unit (itself for a unit that is not a member of a group) -/
   rootOf     : Nat → Nat
   fixedStops : List Nat
+  /-- roots that are ONE-OF units (alternates): at most one member may be planned; the members need not all be listed -/
+  oneOf      : List Nat := []
   sc         : Script := {}
   /-- switches; the code as it is has all of them on. `skipRejected`, `detachMembers`: E36; `coverCheck`: E37;
   `rootFixedAtAttach`: the attach check asks the ROOT whether it is fixed (part of the repair of E36);
@@ -61,6 +63,7 @@ def rootFixed (c : Cfg) (r : Nat) : Bool := c.stops.any (fun s => root c s = r &
 def unitListed (c : Cfg) (u : Nat) : Bool := c.stops.all (fun s => c.unitOf s != u || c.L.contains s)
 /-- every member unit of the root has a stop among the initial stops (`initialStopsCover`) -/
 def rootCovered (c : Cfg) (r : Nat) : Bool :=
+  c.oneOf.contains r ||
   c.stops.all (fun s => root c s != r || c.L.any (fun l => c.unitOf l = c.unitOf s))
 
 structure St where
@@ -163,6 +166,9 @@ def stepUnit (c : Cfg) (st : St) (s : Nat) : St :=
   if c.skipRejected && st.bad.contains r then st else
   if c.coverCheck && !rootCovered c r then
     (if rootFixed c r then { st with err := true } else { st with bad := r :: st.bad })
+  else if c.oneOf.contains r && st.att.any (fun m => c.rootOf m = r) then
+    -- "… is part of one-of plan unit … which is already planned": an error, whatever the unit's flags
+    { st with err := true }
   else if moveRefused c st u (stopPositions c st.att u) then { st with err := true }
   else
     let reject (fixedNow : Bool) (st : St) : St :=
